@@ -41,6 +41,8 @@ pub fn run(ctx: &Ctx) -> i32 {
     // the real TcpTransport over loopback sockets (live / refused / hanging candidates), real clock
     let tctx = Ctx { threads: 16, ..ctx.clone() };
     total.merge(run_generated(&tctx, &crate::engines::tcpeyes::TcpEyesEngine { prop }, "tcp-transport", crate::engines::tcpeyes::strategy, ctx.cases(48, 1_500), 12));
+    // outcomes that hinge on the pacing: hanging candidates first, the live one reached by the stagger timer only
+    total.merge(run_generated(&tctx, &crate::engines::tcpeyes::TcpEyesEngine { prop }, "tcp-transport-pacing", crate::engines::tcpeyes::pacing_strategy, ctx.cases(32, 600), 8));
     let rule = "attempt sets of scripted (outcome in {Ok,Err,Never}, latency) futures pushed into the hooked EyeballSet with stagger delay, overall timeout and initial concurrency from the grid (and off-grid values), run on a paused current_thread runtime; each attempt records its first-poll instant and sequence; result, instant and start instants are checked against necessary conditions from the statement and, when the reference simulation reports no cross-kind tie and no zero-latency attempt, must equal the reference exactly. non-trivial = at least two attempts with different non-zero completion times and a positive stagger delay or deadline; distinct by hash of the case. tcp-transport leg: the real TcpTransport::connect_to_addrs over loopback candidates that accept, refuse, or hang (listener with a full accept queue), with happy_eyeballs_timeout in {none, 1.2 s, 1.6 s, 2.4 s} and concurrency in {none, 0..3}: outcome and completion time must match the reference for stagger = timeout / number of addresses (not earlier than expected; later than expected + 0.4 s is inconclusive)";
     finish(
         ctx,
